@@ -122,8 +122,9 @@ def gen_recipes(rng, tier):
         out.append({'kind': 'override', 'op': rng.choice(OPS)[0], 'l': l, 'r': r, 'base': 'dates', 'only': rng.randrange(2)})
     # the falsy values (0, 0.0, False, '') as OVERRIDES against small fractions, integers, texts and each other: an override must reach the
     # comparison as the value it is, not as a blank
-    falsy = [C.jenc(0), C.jenc(0.0), C.jenc(False), C.jenc('')]
-    others = [C.jenc(v) for v in (0.5, -0.5, 0.25, -0.75, 1, -1, 0, 'a', '', True, 1e-9)]
+    # ... and the blank marker itself, taken from ANOTHER generated class (a blank read from one model and fed to the next)
+    falsy = [C.jenc(0), C.jenc(0.0), C.jenc(False), C.jenc(''), {'E': 1}]
+    others = [C.jenc(v) for v in (0.5, -0.5, 0.25, -0.75, 1, -1, 0, 'a', '', True, 1e-9, '#N/A', ' x', '-')]
     for a in falsy:
         for b in others:
             for l, r in ((a, b), (b, a)):
